@@ -221,3 +221,13 @@ package merkledag
 //@   ensures[decision] result == ((depthLim < 0 && !old(has(set, c))) || (depthLim >= 0 && depth <= depthLim && (!old(has(set, c)) || depth < old(set[c]))))
 //@   ensures[records_depth] result ==> has(set, c) && set[c] == depth
 //@   ensures[unchanged_when_skipped] !result ==> has(set, c) == old(has(set, c)) && (old(has(set, c)) ==> set[c] == old(set[c]))
+
+// ---- C12: fetching a graph is always a walk with the caller's options --------------------------------
+// whatever the depth limit (0 included: the root alone), the blocks are reached through WalkDepth, so that
+// error handlers, missing-block callbacks and a configured provider see the root like any other node
+//@ func FetchGraphWithDepthLimit
+//@   prop C12
+//@   arith int
+//@   modifies all
+//@   ensures[every_fetch_is_a_walk] called("call:WalkDepth#0") || called("call:WalkDepth#1")
+//@   site[walks_from_the_requested_root] call:WalkDepth : arg2 == root
